@@ -68,6 +68,23 @@ def worker(sh):
             j = rng.randrange(0, len(shape) - 2)
             shape[j] = (shape[j][0], rng.choice(['P0', 'Q0']))
         emit(shape, repeat=1)
+    # one prepared object prepared twice: from a point RELATED to Q (Q itself, -Q, the two endomorphism images (beta x, y) that share
+    # y with Q, the identity, an unrelated point) and then from Q - it must equal a freshly prepared object and pair like it
+    beta = next(pow(g0, (O.Q - 1) // 3, O.Q) for g0 in range(2, 50) if pow(g0, (O.Q - 1) // 3, O.Q) != 1)
+    reuse = []
+    for _ in range(sh.pick(2, 30)):
+        a, b = rng.choice(la), rng.choice(lb)
+        Qp = Qs[b]
+        x, y = Qp
+        rel = [('same', Qp), ('negated', gc2.E.neg(Qp)), ('beta*x', ((x[0] * beta % O.Q, x[1] * beta % O.Q), y)), ('beta^2*x', ((x[0] * beta * beta % O.Q, x[1] * beta * beta % O.Q), y)),
+               ('identity', None), ('unrelated', Qs[rng.choice([k for k in lb if k != b])]), ('same-x-other-curve', (x, (y[1], y[0])))]
+        for tag, prev in rel:
+            reuse.append((tag, a, b))
+            lines.append('c.prepare_reuse %s %s %s' % (gc2.aff(prev, rng, True), gc2.aff(Qp), gc1.aff(P[a])))
+            meta.append(('reuse', tag, a, b))
+        # and towards the identity
+        lines.append('c.prepare_reuse %s %s %s' % (gc2.aff(Qp), gc2.aff(None, rng, True), gc1.aff(P[a])))
+        meta.append(('reuse', 'point-then-identity', a, 0))
     # prepared == plain on single pairs incl. identities (separate entry point)
     single = []
     for _ in range(sh.pick(6, 400)):
@@ -84,6 +101,14 @@ def worker(sh):
         def fail(msg, key):
             sh.violation(key, '%s: %s ... -> ...%s' % (msg, line[:80], ' '.join(out)[-120:]), {'line': line, 'got': ' '.join(out)})
         try:
+            if m[0] == 'reuse':
+                _, tag, a, b = m
+                if int(out[1]) != 1:
+                    fail('a G2Prepared object prepared from a related point and then from Q differs from a fresh one (%s)' % tag, 'reuse:g2prepared_prepare:%s' % tag)
+                if C.dec_flat(out[2]) != gtlib.e0_pow(a * b):
+                    fail('pairing through a re-prepared object is not E0^(ab) (%s)' % tag, 'value:prepared_pairing:reused-object')
+                sh.event('g2prepared_prepare', 'object-reused/' + tag)
+                continue
             if m[0] == 'single':
                 _, a, b = m
                 e = C.dec_flat(out[1])
@@ -118,7 +143,7 @@ def worker(sh):
 
 def run(ctx):
     O.selftest(random.Random(ctx.seed))
-    cfgs = ['prod', 'san'] if ctx.quick else ['prod', 'san', 'p64', 'p32', 'x86base']
+    cfgs = ['prod', 'san', 'p32'] if ctx.quick else ['prod', 'san', 'p64', 'p32', 'x86base']
     specs = {c: (c if c != 'x86base' else 'prod', 'opdrv.cpp', ['--x86base'] if c == 'x86base' else []) for c in cfgs}
     exes = session.build_exes(specs)
     session.run_shards(ctx, worker, 16, exes, {'cfgs': cfgs})
@@ -130,7 +155,7 @@ def run(ctx):
     ctx.extra['exhaustive'] = True
     ctx.extra['exhaustive_scope'] = 'list shapes of length <= %d over 6 pair kinds (values sampled)' % (4 if ctx.quick else 5)
     ctx.assumptions = ['Python integer arithmetic', 'oracle/bls.py definitional pairing of the generators']
-    need = ['pairing_sum|n0/', 'pairing_sum|n1/A/', 'pairing_sum|n1/P/', 'pairing_sum|n2/AP/', 'pairing_sum|n2/pA', 'pairing_sum|n3/', 'prepared_pairing|identity', 'prepared_pairing|generic']
+    need = ['g2prepared_prepare|object-reused/beta*x', 'g2prepared_prepare|object-reused/same', 'g2prepared_prepare|object-reused/point-then-identity', 'pairing_sum|n0/', 'pairing_sum|n1/A/', 'pairing_sum|n1/P/', 'pairing_sum|n2/AP/', 'pairing_sum|n2/pA', 'pairing_sum|n3/', 'prepared_pairing|identity', 'prepared_pairing|generic']
     for r in need:
         if not any(k.startswith(r) for k in ctx.classes):
             ctx.required_classes.add(r)
